@@ -209,7 +209,7 @@ pub fn evaluate(sc: &Scenario) -> Eval {
                     } else {
                         // may fail — but only with the injected error, never with a wrong value
                         match v {
-                            Verdict::Err { sols } => {
+                            Verdict::Err { sols, .. } => {
                                 let injected = sols.values().any(|e| match e {
                                     SolErr::Program(nodes) => nodes.values().any(|k| {
                                         ids.iter().any(|id| k.ends_with(&format!("StateRead#{id}")))
@@ -264,7 +264,7 @@ fn compare_numberings(
             }
             Ok(())
         }
-        (Verdict::Err { sols: s1 }, Verdict::Err { sols: s2 }) => {
+        (Verdict::Err { sols: s1, .. }, Verdict::Err { sols: s2, .. }) => {
             if s1.keys().collect::<Vec<_>>() != s2.keys().collect::<Vec<_>>() {
                 return Err(format!("failing solutions {:?} vs {:?}", s1.keys(), s2.keys()));
             }
@@ -319,7 +319,7 @@ fn compare_permuted(a: &Verdict, b: &Verdict, perm: &[usize]) -> Result<(), Stri
             }
             Ok(())
         }
-        (Verdict::Err { sols: s1 }, Verdict::Err { sols: s2 }) => {
+        (Verdict::Err { sols: s1, .. }, Verdict::Err { sols: s2, .. }) => {
             let mapped: BTreeMap<u16, &SolErr> = perm
                 .iter()
                 .enumerate()
@@ -485,6 +485,12 @@ pub fn scenarios(batch: Batch, run_seed: u64) -> (Vec<Scenario>, u64) {
         Batch::C04Permutation | Batch::C04Conflict => {
             if batch == Batch::C04Conflict {
                 inject_conflict(&mut fault_rng, &mut case);
+            } else if fault_rng.chance(1, 4) {
+                // sets are merged from independent submissions: the same solution may arrive twice
+                let i = fault_rng.usize(case.w.sols.len());
+                let dup = case.w.sols[i].clone();
+                let at = fault_rng.usize(case.w.sols.len() + 1);
+                case.w.sols.insert(at, dup);
             }
             let n = case.w.sols.len();
             for _ in 0..3 {
